@@ -24,24 +24,17 @@ theorem allBytesB_spec {f : Byte → Bool} (h : allBytesB f = true) : ∀ b : By
 
 /-! ### the monad -/
 
-@[simp] theorem P.pure_apply {α : Type} (a : α) (c : Cur) : (pure a : P α) c = .ok (a, c) := rfl
-@[simp] theorem P.bind_apply {α β : Type} (f : P α) (g : α → P β) (c : Cur) :
-    (f >>= g) c = match f c with
-      | .ok (a, c') => g a c'
+@[simp] theorem run_pure {α : Type} (a : α) (c : Cur) : (pure a : P α).run c = .ok (a, c) := rfl
+@[simp] theorem run_bind {α β : Type} (f : P α) (g : α → P β) (c : Cur) :
+    (f >>= g).run c = match f.run c with
+      | .ok (a, c') => (g a).run c'
       | .part => .part
       | .err e => .err e
       | .ub u => .ub u := rfl
-@[simp] theorem P.fail_apply {α : Type} (e : Error) (c : Cur) : (P.fail e : P α) c = .err e := rfl
-@[simp] theorem P.partial_apply {α : Type} (c : Cur) : (P.partial_ : P α) c = .part := rfl
-@[simp] theorem P.undefined_apply {α : Type} (u : UB) (c : Cur) : (P.undefined u : P α) c = .ub u := rfl
-
-/-- `do let _ ← f; g` -/
-@[simp] theorem P.seq_apply {α β : Type} (f : P α) (g : P β) (c : Cur) :
-    (f >>= fun _ => g) c = match f c with
-      | .ok (_, c') => g c'
-      | .part => .part
-      | .err e => .err e
-      | .ub u => .ub u := rfl
+@[simp] theorem run_fail {α : Type} (e : Error) (c : Cur) : (P.fail e : P α).run c = .err e := rfl
+@[simp] theorem run_partial {α : Type} (c : Cur) : (P.partial_ : P α).run c = .part := rfl
+@[simp] theorem run_undefined {α : Type} (u : UB) (c : Cur) : (P.undefined u : P α).run c = .ub u := rfl
+@[simp] theorem run_mk {α : Type} (f : Cur → Outcome (α × Cur)) (c : Cur) : (P.mk f).run c = f c := rfl
 
 example : ∀ b : Byte, isTchar b = true → isValue b = true := by
   have h := allBytesB_spec (f := fun b => !isTchar b || isValue b) (by decide +kernel)
